@@ -11,6 +11,7 @@ import (
 	"fmt"
 	"runtime"
 	"sort"
+	"strconv"
 	"strings"
 	"sync"
 	"time"
@@ -414,6 +415,13 @@ func (noFeedQuerier) QueryCurrentFeeds() (*feedstypes.QueryCurrentFeedsResponse,
 
 func feedsOf(poll string) []feedstypes.FeedWithDeviation {
 	var out []feedstypes.FeedWithDeviation
+	if strings.HasPrefix(poll, "N:") { // a batch of n current feeds S001..Sn (only as the single poll of a scenario)
+		n, _ := strconv.Atoi(poll[2:])
+		for i := 1; i <= n; i++ {
+			out = append(out, feedstypes.NewFeedWithDeviation(fmt.Sprintf("S%03d", i), 2, 60, 50))
+		}
+		return out
+	}
 	for _, id := range strings.Split(poll, "+") {
 		out = append(out, feedstypes.NewFeedWithDeviation(id, 2, 60, 50))
 	}
